@@ -347,7 +347,29 @@ def case_dimchange(case):
     return r.done(outcome=[round(float(v), 8) for v in fb[:2]])
 
 
-GROUPS = {"dimchange": case_dimchange, "nugget": case_nugget, "structure": case_structure, "ensemble": case_ensemble, "rate": case_rate, "fourier": case_fourier}
+def case_upscaling(case):
+    """point volumes: the field is the point-scale field times sqrt(upscaled variance / sill) (documented
+    coarse-graining factor; 1 without scaling), for models with and without nugget"""
+    r = R()
+    d, nug, up, mean = case["dim"], case["nugget"], case["upscaling"], case["mean"]
+    m = getattr(gs, case["cls"])(dim=d, var=1.6, len_scale=2.0, nugget=nug)
+    x = np.random.RandomState(5).uniform(-8, 8, size=(d, 7))
+    extra = {"cls": case["cls"], "dim": d, "nugget": nug, "upscaling": up}
+    base = np.array(gs.SRF(m, seed=case["seed"], mode_no=16, mean=mean, upscaling=up)(x), dtype=float)
+    for pv in (0.25, 3.0, np.array([0.1, 0.5, 1.0, 2.0, 4.0, 0.0, 9.0])):
+        with warnings.catch_warnings():
+            warnings.simplefilter("ignore")
+            f = np.array(gs.SRF(m, seed=case["seed"], mode_no=16, mean=mean, upscaling=up)(x, point_volumes=pv), dtype=float)
+        if up == "no_scaling":
+            fac = np.ones(7)
+        else:
+            lam = np.asarray(pv, dtype=float) ** (1.0 / d) * np.ones(7)
+            fac = (2.0**2 / (2.0**2 + lam**2 / 4)) ** (d / 2.0)
+        r.close("field with point volumes == mean + (point-scale field - mean) * sqrt(documented variance factor)", f, mean + (base - mean) * np.sqrt(fac), rtol=1e-10, atol=1e-12, pv=np.asarray(pv).tolist(), **extra)
+    return r.done(outcome=[round(float(v), 8) for v in base[:2]])
+
+
+GROUPS = {"upscaling": case_upscaling, "dimchange": case_dimchange, "nugget": case_nugget, "structure": case_structure, "ensemble": case_ensemble, "rate": case_rate, "fourier": case_fourier}
 
 
 def pairs():
@@ -418,6 +440,8 @@ def run(chk):
         for gen in ("RandMeth", "Fourier"):
             cfg = {"cls": cls, "dim": d, "opts": opts_for(cls, d, True), "aniso": False, "gen": gen, "mode_no": 16 if gen == "RandMeth" else [6, 4, 4], "period": [12.0, 9.0, 7.0], "len_scale": 1.5}
             dcs.append({"cfg": cfg, "dim_from": d, "seed": s0 + 3, "opt_from": opts_for(cls, d, False)})
+    uc = [{"cls": c, "dim": d, "nugget": ng, "upscaling": up, "mean": mn, "seed": s0 + 2} for c in ("Gaussian", "Exponential") for d in (1, 2, 3) for ng in (0.0, 0.5) for up in ("no_scaling", "coarse_graining") for mn in (0.0, 0.7)]
+    chk.run("upscaling", case_upscaling, uc, rule="model x dim x nugget {0, .5} x upscaling {no_scaling, coarse_graining} x mean x point volumes {scalar, array incl. 0}: field == mean + (point-scale field - mean) sqrt(documented variance factor)", chunk=4)
     chk.run("dimchange", case_dimchange, dcs, rule="every (class, dim_from -> dim) with both dimensions valid (quick: neighbouring dimensions) x generator: the model is built and used in dim_from, its dim is set in place; spectrum, samples and field equal those of the model built in the target dimension with the same seed; likewise for an optional argument changed in place, and for a field object that was created and used before the change", chunk=2)
     chk.run("structure", case_structure, stc, rule="every valid (class, dim) x {default, alternative shape parameter} x {isotropic, anisotropic+rotated} x seeds (+ nugget / mean configuration; forced inversion; Fourier generator): returned field == documented mode sum evaluated from the sample arrays with the oracle's coordinate transform", chunk=4)
     chk.run("ensemble", case_ensemble, enc, rule=f"complete seed window [{s0}, {s0 + S}) per configuration x mode numbers (100, 1000 = library default; thorough 100..1600) x sampling (auto / forced inversion / forced mcmc): laws of amplitudes and directions (6 sigma), radii under inversion (DKW at 1e-9), exact conditional covariance on the lag lattice: normalised error <= 3, unbiasedness, anisotropy scaling, ensemble mean and variance", chunk=1)
